@@ -25,7 +25,9 @@
    pumps with no time limit, "QuicNoWaitStopped" = QUIC shutdown returns without waiting for the peer (before
    5dfd783; visible together with DropOnFirstClose, which is how the tree was), "NoSinkClose" = forward does not
    close its sink (together with JoinBoth: the peer then never sees the end), "IgnoreLinkErr" = a pump whose link
-   read failed does not end (after a link failure the outer sides are never told).
+   read failed does not end (after a link failure the outer sides are never told), "WsCloseEndsBoth" (open finding: the
+   end of a WebSocket link direction ends the other direction too), "CloseSkipsFlush" (a sink close that completes with
+   its write buffer unflushed), "NoKeepAlive" (a silent QUIC flow is lost at the idle timeout; before 1bbb4d9).
 
    The external variables are those of RelayAbs (same names): TLC checks  TcpRelay => RelayAbs  as the action
    property RA!Spec, i.e. every step here is a RelayAbs step or leaves RelayAbs' variables unchanged.       *)
@@ -34,6 +36,7 @@ EXTENDS Naturals, Sequences, FiniteSets, TLC
 CONSTANTS MaxUp, MaxDown,   \* units the application / the target may write
           Link,             \* "tcp" | "tls" | "quic" | "ws"   (wss behaves as ws; ws as tcp except for the Close frame, see SrcEof)
           Reach,            \* "ok" | "refused"            (refused stands for unresolvable too)
+          Cap,              \* capacity of each kernel queue (sq, rq) in units: a full queue blocks its writer (back-pressure)
           Cut,              \* BOOLEAN: the environment may cut the link between client and server once (C15)
           Dev
 
@@ -44,11 +47,12 @@ VARIABLES
   sq, rq, fin, rst,        \* per channel 1..6
   ep,                      \* endpoint state: "open" | "shut" | "dropped";  A CA CL SL ST T
   pump,                    \* P1..P4: "run" | "closing" | "closed" | "err"
+  wb,                      \* P1..P4: units in the sink's user-space write buffer (Framed / WebSocketFramed), not yet in the kernel
   relay,                   \* [c |-> ..., s |-> ...]: "wait" | "run" | "grace" | "dropped"
   noise                    \* TLS records the relay never asked for, at the client's link endpoint: 0 none yet, 1 unread, 2 consumed
 
 absVars == <<phase, want, reach, dials, sentUp, gotUp, sentDown, gotDown, appClosed, tgtClosed, cleanApp, cleanTgt, appSaw, tgtSaw, fault, lapsed>>
-desVars == <<sq, rq, fin, rst, ep, pump, relay, noise>>
+desVars == <<sq, rq, fin, rst, ep, pump, wb, relay, noise>>
 vars == <<absVars, desVars>>
 
 RA == INSTANCE RelayAbs
@@ -72,7 +76,7 @@ Init ==
   /\ RA!Init
   /\ sq = [c \in Chan |-> 0] /\ rq = [c \in Chan |-> 0] /\ fin = [c \in Chan |-> 0] /\ rst = [c \in Chan |-> FALSE]
   /\ ep = [e \in {"A", "CA", "CL", "SL", "ST", "T"} |-> "open"]
-  /\ pump = [p \in 1..4 |-> "run"]
+  /\ pump = [p \in 1..4 |-> "run"] /\ wb = [p \in 1..4 |-> 0]
   /\ relay = [c |-> "run", s |-> "wait"]
   /\ noise = 0
 
@@ -106,7 +110,7 @@ SetChans(S) == sq' = S.sq /\ rq' = S.rq /\ fin' = S.fin /\ rst' = S.rst
 
 \* one unit travels; data reaching a dropped endpoint is answered with a reset (LateData)
 Transmit(ch) ==
-  /\ sq[ch] > 0 /\ ~rst[ch]
+  /\ sq[ch] > 0 /\ ~rst[ch] /\ (rq[ch] < Cap \/ ep[Reader(ch)] = "dropped")
   /\ IF ep[Reader(ch)] = "dropped"
        THEN /\ sq' = [sq EXCEPT ![ch] = 0, ![Back(ch)] = 0]
             /\ rst' = [rst EXCEPT ![Back(ch)] = TRUE]
@@ -114,44 +118,44 @@ Transmit(ch) ==
             /\ UNCHANGED rq
        ELSE /\ sq' = [sq EXCEPT ![ch] = sq[ch] - 1] /\ rq' = [rq EXCEPT ![ch] = rq[ch] + 1]
             /\ UNCHANGED <<fin, rst>>
-  /\ UNCHANGED <<absVars, ep, pump, relay, noise>>
+  /\ UNCHANGED <<absVars, ep, pump, wb, relay, noise>>
 
 \* output queued towards a connection that has been reset is thrown away
 Discard(ch) ==
   /\ rst[ch] /\ (sq[ch] > 0 \/ fin[ch] = 1)
   /\ sq' = [sq EXCEPT ![ch] = 0] /\ fin' = [fin EXCEPT ![ch] = 0]
-  /\ UNCHANGED <<absVars, rq, rst, ep, pump, relay, noise>>
+  /\ UNCHANGED <<absVars, rq, rst, ep, pump, wb, relay, noise>>
 
 TransmitFin(ch) ==
   /\ sq[ch] = 0 /\ fin[ch] = 1 /\ ~rst[ch]
   /\ fin' = [fin EXCEPT ![ch] = 2]
-  /\ UNCHANGED <<absVars, sq, rq, rst, ep, pump, relay, noise>>
+  /\ UNCHANGED <<absVars, sq, rq, rst, ep, pump, wb, relay, noise>>
 
 \* TLS: the server's stack emits a record the relay never asked for; the client consumes it only while it reads
 Noise ==
   /\ Link = "tls" /\ noise = 0 /\ ep["SL"] # "dropped" /\ ep["CL"] # "dropped"
   /\ noise' = 1
-  /\ UNCHANGED <<absVars, sq, rq, fin, rst, ep, pump, relay>>
+  /\ UNCHANGED <<absVars, sq, rq, fin, rst, ep, pump, wb, relay>>
 
 ConsumeNoise ==
   /\ noise = 1 /\ pump[4] = "run" /\ relay.c \in {"run", "grace"}
   /\ noise' = 2
-  /\ UNCHANGED <<absVars, sq, rq, fin, rst, ep, pump, relay>>
+  /\ UNCHANGED <<absVars, sq, rq, fin, rst, ep, pump, wb, relay>>
 
 -----------------------------------------------------------------------------
 (* environment: the application and the target *)
 
 AppWrite ==
-  /\ sentUp < MaxUp /\ ep["A"] = "open"
+  /\ sentUp < MaxUp /\ ep["A"] = "open" /\ sq[1] < Cap
   /\ RA!AppWrite(1)
   /\ sq' = [sq EXCEPT ![1] = IF rst[6] THEN 0 ELSE sq[1] + 1]
-  /\ UNCHANGED <<rq, fin, rst, ep, pump, relay, noise>>
+  /\ UNCHANGED <<rq, fin, rst, ep, pump, wb, relay, noise>>
 
 TgtWrite ==
-  /\ sentDown < MaxDown /\ ep["T"] = "open"
+  /\ sentDown < MaxDown /\ ep["T"] = "open" /\ sq[4] < Cap
   /\ RA!TgtWrite(1)
   /\ sq' = [sq EXCEPT ![4] = IF rst[3] THEN 0 ELSE sq[4] + 1]
-  /\ UNCHANGED <<rq, fin, rst, ep, pump, relay, noise>>
+  /\ UNCHANGED <<rq, fin, rst, ep, pump, wb, relay, noise>>
 
 EnvClose(e, how) ==
   /\ ep[e] = "open"
@@ -165,7 +169,7 @@ EnvClose(e, how) ==
                       /\ sq' = [sq EXCEPT ![o] = 0] /\ rst' = [rst EXCEPT ![o] = TRUE]
                       /\ fin' = [fin EXCEPT ![o] = IF fin[o] = 2 THEN 2 ELSE 0] /\ rq' = [rq EXCEPT ![i] = 0]
                  ELSE SetChans(DropEffect(Cur, e))
-  /\ UNCHANGED <<pump, relay, noise>>
+  /\ UNCHANGED <<pump, wb, relay, noise>>
 
 AppClose(how) == phase = "open" /\ RA!AppClose(how) /\ EnvClose("A", how)
 TgtClose(how) == RA!TgtClose(how) /\ EnvClose("T", how)
@@ -186,7 +190,7 @@ AppRead ==
   /\ ep["A"] # "dropped" /\ rq[6] > 0 /\ appSaw = "no"
   /\ Only("gotDown", gotDown + 1)
   /\ rq' = [rq EXCEPT ![6] = rq[6] - 1]
-  /\ UNCHANGED <<sq, fin, rst, ep, pump, relay, noise>>
+  /\ UNCHANGED <<sq, fin, rst, ep, pump, wb, relay, noise>>
 
 AppSeeEnd ==
   /\ ep["A"] # "dropped" /\ rq[6] = 0 /\ appSaw = "no"
@@ -198,7 +202,7 @@ TgtRead ==
   /\ ep["T"] # "dropped" /\ rq[3] > 0 /\ tgtSaw = "no"
   /\ Only("gotUp", gotUp + 1)
   /\ rq' = [rq EXCEPT ![3] = rq[3] - 1]
-  /\ UNCHANGED <<sq, fin, rst, ep, pump, relay, noise>>
+  /\ UNCHANGED <<sq, fin, rst, ep, pump, wb, relay, noise>>
 
 TgtSeeEnd ==
   /\ ep["T"] # "dropped" /\ rq[3] = 0 /\ tgtSaw = "no" /\ dials # <<>>
@@ -211,18 +215,35 @@ TgtSeeEnd ==
 
 Move(p) ==
   /\ pump[p] = "run" /\ relay[Owner(p)] \in {"run", "grace"} /\ rq[Src(p)] > 0
+  /\ wb[p] = 0               \* forward: the buffered item is handed to the sink only when the sink is ready (poll_ready)
   /\ IF rst[Back(Snk(p))]      \* the sink's connection has been reset: the write fails
        THEN /\ pump' = [pump EXCEPT ![p] = IF Owner(p) = "s" \/ "ClientSwallowsErr" \in Dev THEN "closed" ELSE "err"]
-            /\ UNCHANGED <<sq, rq>>
-       ELSE /\ rq' = [rq EXCEPT ![Src(p)] = rq[Src(p)] - 1] /\ sq' = [sq EXCEPT ![Snk(p)] = sq[Snk(p)] + 1]
+            /\ UNCHANGED <<rq, wb>>
+       ELSE /\ rq' = [rq EXCEPT ![Src(p)] = rq[Src(p)] - 1] /\ wb' = [wb EXCEPT ![p] = 1]
             /\ UNCHANGED pump
-  /\ UNCHANGED <<absVars, fin, rst, ep, relay, noise>>
+  /\ UNCHANGED <<absVars, sq, fin, rst, ep, relay, noise>>
+
+\* the sink writes its buffer into the kernel when the kernel has room (poll_flush; Pending while the queue is full)
+Flush(p) ==
+  /\ wb[p] > 0 /\ pump[p] = "run" /\ relay[Owner(p)] \in {"run", "grace"}
+  /\ IF rst[Back(Snk(p))]
+       THEN /\ wb' = [wb EXCEPT ![p] = 0] /\ UNCHANGED sq
+            /\ pump' = [pump EXCEPT ![p] = IF Owner(p) = "s" \/ "ClientSwallowsErr" \in Dev THEN "closed" ELSE "err"]
+       ELSE /\ sq[Snk(p)] < Cap
+            /\ wb' = [wb EXCEPT ![p] = 0] /\ sq' = [sq EXCEPT ![Snk(p)] = sq[Snk(p)] + 1]
+            /\ UNCHANGED pump
+  /\ UNCHANGED <<absVars, rq, fin, rst, ep, relay, noise>>
 
 WsClose(p) == Link = "ws" /\ IsLink(Src(p)) /\ "WsCloseEndsBoth" \in Dev
 \* the source ended: forward closes (shuts down) its sink.  On a QUIC link the shutdown completes only when the
 \* peer has read the stream to the end.
+\* Closing the sink flushes it first (poll_close = flush, then shutdown): the close completes only when the buffer is in the
+\* kernel.  Deviation "CloseSkipsFlush": a close that reports completion while the flush is still pending - what is in
+\* the buffer never reaches the kernel.
 SrcEof(p) ==
   /\ pump[p] = "run" /\ relay[Owner(p)] \in {"run", "grace"} /\ rq[Src(p)] = 0 /\ fin[Src(p)] = 2 /\ ~rst[Src(p)]
+  /\ wb[p] = 0 \/ "CloseSkipsFlush" \in Dev
+  /\ wb' = [wb EXCEPT ![p] = 0]
   /\ IF "NoSinkClose" \in Dev
        THEN UNCHANGED <<fin, ep>> /\ pump' = [pump EXCEPT ![p] = "closed"]
        ELSE /\ fin' = [c \in Chan |->
@@ -241,13 +262,15 @@ QuicStopped(p) ==
   /\ \/ fin[Snk(p)] = 3                                   \* the peer has read the stream to its end
      \/ rst[Back(Snk(p))] \/ rst[Snk(p)]                  \* or the connection is gone
   /\ pump' = [pump EXCEPT ![p] = "closed"]
-  /\ UNCHANGED <<absVars, sq, rq, fin, rst, ep, relay, noise>>
+  /\ UNCHANGED <<absVars, sq, rq, fin, rst, ep, wb, relay, noise>>
 
 \* the source was reset.  The server's pumps filter errors out of their streams (filter_map(r.ok())), so a reset
 \* looks like an end-of-stream there and the sink is closed in an orderly way; the client's pumps end with Err.
 SrcRst(p) ==
   /\ pump[p] = "run" /\ relay[Owner(p)] \in {"run", "grace"} /\ rq[Src(p)] = 0 /\ rst[Src(p)]
   /\ ~("IgnoreLinkErr" \in Dev /\ IsLink(Src(p)))         \* deviation: a failed link read is retried for ever
+  /\ (Owner(p) = "s" \/ "ClientSwallowsErr" \in Dev) => wb[p] = 0
+  /\ wb' = [wb EXCEPT ![p] = 0]
   /\ IF Owner(p) = "s" \/ "ClientSwallowsErr" \in Dev
        THEN /\ fin' = [fin EXCEPT ![Snk(p)] = IF fin[Snk(p)] = 0 /\ ~rst[Snk(p)] THEN 1 ELSE fin[Snk(p)]]
             /\ pump' = [pump EXCEPT ![p] = "closed"]
@@ -260,7 +283,7 @@ QuicAckEnd(ch) ==
   /\ Link = "quic" /\ IsLink(ch) /\ fin[ch] = 2 /\ rq[ch] = 0
   /\ LET p == IF ch = 2 THEN 2 ELSE 4 IN pump[p] # "run" \/ relay[Owner(p)] = "dropped"
   /\ fin' = [fin EXCEPT ![ch] = 3]
-  /\ UNCHANGED <<absVars, sq, rq, rst, ep, pump, relay, noise>>
+  /\ UNCHANGED <<absVars, sq, rq, rst, ep, pump, wb, relay, noise>>
 
 -----------------------------------------------------------------------------
 (* relays *)
@@ -277,17 +300,18 @@ ServerStart ==
             /\ relay' = [relay EXCEPT !.s = "dropped"]
             /\ ep' = [ep EXCEPT !["SL"] = "dropped", !["ST"] = "dropped"]
             /\ SetChans(DropEffect(Cur, "SL"))
-  /\ UNCHANGED <<pump, noise>>
+  /\ UNCHANGED <<pump, wb, noise>>
 
 ServerNoRequest ==      \* the client went away before sending anything
   /\ relay.s = "wait" /\ rq[2] = 0 /\ (fin[2] = 2 \/ rst[2])
   /\ relay' = [relay EXCEPT !.s = "dropped"]
   /\ ep' = [ep EXCEPT !["SL"] = "dropped", !["ST"] = "dropped"]
   /\ SetChans(DropEffect(Cur, "SL"))
-  /\ UNCHANGED <<absVars, pump, noise>>
+  /\ UNCHANGED <<absVars, pump, wb, noise>>
 
 DropRelay(r) ==
   /\ relay' = [relay EXCEPT ![r] = "dropped"]
+  /\ wb' = [p \in 1..4 |-> IF p \in Pumps(r) THEN 0 ELSE wb[p]]
   /\ ep' = [e \in DOMAIN ep |-> IF e \in Eps(r) THEN "dropped" ELSE ep[e]]
   /\ SetChans(DropAll(Cur, Eps(r)))
 
@@ -297,7 +321,7 @@ First(r) ==
   /\ \E p \in Pumps(r) :
        /\ pump[p] \in {"closed", "err"}
        /\ IF pump[p] = "closed" /\ "DropOnFirstClose" \notin Dev
-            THEN relay' = [relay EXCEPT ![r] = "grace"] /\ UNCHANGED <<sq, rq, fin, rst, ep>>
+            THEN relay' = [relay EXCEPT ![r] = "grace"] /\ UNCHANGED <<sq, rq, fin, rst, ep, wb>>
             ELSE DropRelay(r)
   /\ UNCHANGED <<absVars, pump, noise>>
 
@@ -311,7 +335,7 @@ GraceBoth(r) ==
 \* everything the two processes and the kernels do by themselves, without a timer
 Internal == \/ \E ch \in Chan : Transmit(ch) \/ TransmitFin(ch) \/ QuicAckEnd(ch) \/ Discard(ch)
             \/ ConsumeNoise
-            \/ \E p \in 1..4 : Move(p) \/ SrcEof(p) \/ SrcRst(p) \/ QuicStopped(p)
+            \/ \E p \in 1..4 : Move(p) \/ Flush(p) \/ SrcEof(p) \/ SrcRst(p) \/ QuicStopped(p)
             \/ ServerStart \/ ServerNoRequest
             \/ \E r \in {"c", "s"} : First(r) \/ GraceBoth(r)
 
@@ -337,7 +361,19 @@ LinkCut ==
   /\ rq' = IF Link = "quic" THEN [rq EXCEPT ![2] = 0, ![5] = 0] ELSE rq
   /\ rst' = [rst EXCEPT ![2] = TRUE, ![5] = TRUE]
   /\ fin' = [fin EXCEPT ![2] = IF fin[2] >= 2 THEN fin[2] ELSE 0, ![5] = IF fin[5] >= 2 THEN fin[5] ELSE 0]
-  /\ UNCHANGED <<ep, pump, relay, noise>>
+  /\ UNCHANGED <<ep, pump, wb, relay, noise>>
+
+(* Deviation "NoKeepAlive" (the tree before 1bbb4d9): a QUIC connection on which nothing is sent for longer than its idle
+   timeout is declared lost by both ends, although neither the application nor the target has closed - a silent flow
+   is a state in which nothing internal is enabled.  With keep-alive packets silence on the flow is not silence on the
+   connection and this step does not exist.                                                                       *)
+QuicIdleLoss ==
+  /\ "NoKeepAlive" \in Dev /\ Link = "quic" /\ phase = "open" /\ ~fault
+  /\ ~ENABLED Internal /\ relay.c # "dropped" /\ ~rst[2] /\ ~rst[5]
+  /\ sq' = [sq EXCEPT ![2] = 0, ![5] = 0] /\ rq' = [rq EXCEPT ![2] = 0, ![5] = 0]
+  /\ rst' = [rst EXCEPT ![2] = TRUE, ![5] = TRUE]
+  /\ fin' = [fin EXCEPT ![2] = IF fin[2] >= 2 THEN fin[2] ELSE 0, ![5] = IF fin[5] >= 2 THEN fin[5] ELSE 0]
+  /\ UNCHANGED <<absVars, ep, pump, wb, relay, noise>>
 
 OpenFlow ==
   /\ phase = "idle"
@@ -345,14 +381,14 @@ OpenFlow ==
   /\ UNCHANGED desVars
 
 Env == OpenFlow \/ AppWrite \/ TgtWrite \/ (\E h \in {"fin", "close", "rst"} : AppClose(h) \/ TgtClose(h)) \/ LinkCut
-Sys == \/ Internal \/ Noise
+Sys == \/ Internal \/ Noise \/ QuicIdleLoss
        \/ AppRead \/ AppSeeEnd \/ TgtRead \/ TgtSeeEnd
        \/ \E r \in {"c", "s"} : GraceTimeout(r)
 
 Next == Env \/ Sys
 Fair == /\ \A ch \in Chan : WF_vars(Transmit(ch)) /\ WF_vars(TransmitFin(ch)) /\ WF_vars(QuicAckEnd(ch)) /\ WF_vars(Discard(ch))
         /\ WF_vars(ConsumeNoise) /\ WF_vars(AppRead) /\ WF_vars(AppSeeEnd) /\ WF_vars(TgtRead) /\ WF_vars(TgtSeeEnd)
-        /\ \A p \in 1..4 : WF_vars(Move(p)) /\ WF_vars(SrcEof(p)) /\ WF_vars(SrcRst(p)) /\ WF_vars(QuicStopped(p))
+        /\ \A p \in 1..4 : WF_vars(Move(p)) /\ WF_vars(Flush(p)) /\ WF_vars(SrcEof(p)) /\ WF_vars(SrcRst(p)) /\ WF_vars(QuicStopped(p))
         /\ WF_vars(ServerStart) /\ WF_vars(ServerNoRequest)
         /\ \A r \in {"c", "s"} : WF_vars(First(r)) /\ WF_vars(GraceBoth(r)) /\ WF_vars(GraceTimeout(r))
 Spec == Init /\ [][Next]_vars /\ Fair
